@@ -12,7 +12,8 @@
      internal/proxy/providers/sso.go:59-83,106-160  /<slug>/sign_in ..., Redeem stamps ProviderSlug
      internal/proxy/reverse_proxy.go:136-188  DirectorFunc / StaticDirectorFunc / RewriteDirectorFunc
      internal/proxy/oauthproxy.go:272-285     IsWhitelistedRequest (skip_auth_regex)
-     internal/proxy/oauthproxy.go:391-523     OAuthCallback (validators any-of, AuthorizedUpstream := req.Host)
+     internal/proxy/oauthproxy.go:316-389     OAuthStart (flow record = session id + redirect URI; names no host)
+     internal/proxy/oauthproxy.go:391-535     OAuthCallback (validators any-of, AuthorizedUpstream := req.Host)
      internal/proxy/oauthproxy.go:538-610     Proxy (error -> OAuthStart / 403)
      internal/proxy/oauthproxy.go:613-651,720-733  Authenticate: slug check, host check, per-request validators
 
@@ -113,9 +114,13 @@ Inductive cookie_effect := CkNone | CkCleared | CkSet (s : session).
 
 (* q_cookie = None: no session cookie, or one that does not open (both restart the flow) *)
 Record request := { q_host : str; q_path : str; q_cookie : option session }.
-(* a callback request that closes a genuine flow (state and CSRF cookie match) on host l_host;
-   the authenticator redeems the code to l_email and answers the groups question with l_groups *)
-Record login := { l_host : str; l_email : str; l_groups : groups_answer }.
+(* a sign-in: the client asks for l_spath on host l_start without a session (when that request is
+   answered by OAuthStart it yields a sealed flow record and the CSRF cookie), authenticates, and
+   delivers the callback — with that flow record and CSRF cookie, or with none when there is none —
+   to host l_host, which need NOT be l_start: every upstream shares the cookie name and the sealing
+   key, so any upstream's callback accepts the flow. The authenticator redeems the code to l_email
+   and answers the groups question with l_groups. *)
+Record login := { l_start : str; l_spath : str; l_host : str; l_email : str; l_groups : groups_answer }.
 
 Inductive kind :=
 | KHealth          (* 200 from the /ping middleware, before routing *)
@@ -222,10 +227,25 @@ Definition callback_on (u : upstream) (l : login) : response * option session :=
     (plain KLoginOk (CkSet s) (Some (provider_slug u)), Some s)
   else (plain KLoginRefused CkNone (Some (provider_slug u)), None).
 
+(* the request that opens the flow, and whether OAuthStart answered it (Proxy: not the health check,
+   a routed host, not a skip-auth path, no session -> OAuthStart) *)
+Definition start_request (l : login) : request :=
+  {| q_host := l_start l; q_path := l_spath l; q_cookie := None |}.
+Definition flow_started (cfg : list upstream) (l : login) : bool :=
+  negb (str_eqb (l_spath l) ping_path) &&
+  match route_of cfg (l_start l) with
+  | RUp u => negb (whitelisted u (start_request l))
+  | RDefault => false
+  end.
+
+(* The callback is handled by the upstream its OWN Host names. Without a flow record the code is
+   still redeemed (oauthproxy.go:424) before the state parameter fails to open (500, no cookie). *)
 Definition callback (cfg : list upstream) (l : login) : response * option session :=
   match route_of cfg (l_host l) with
   | RDefault => (plain KMisdirected CkNone None, None)
-  | RUp u => callback_on u l
+  | RUp u =>
+      if flow_started cfg l then callback_on u l
+      else (plain KLoginRefused CkNone (Some (provider_slug u)), None)
   end.
 
 (* ---- history machine: logins and requests on any hosts, in any order ----
